@@ -4,11 +4,13 @@ import Q1t.Proofs.SimExtras
 import Q1t.Proofs.SimDischarge
 import Q1t.Proofs.SimDemo
 import Q1t.Proofs.SimComplex
+import Q1t.Proofs.SimDischargeAll
+import Q1t.Proofs.SimHypsComplex
 /-!
 # C02 — every shot is a possible run and holds the exact conditional state
 
 Property theorems only; proofs are in `Q1t/Proofs/Sim{Basic,Alg,Gate,Reg,Measure,Ranges,Shots,Exec,Rel,
-BitsAll,Refine,MeasAll,Embed1,BasisAll,ResetAll,Capstone,Extras,BasisGates,Discharge,Demo,Complex}.lean`.
+BitsAll,Refine,MeasAll,Embed1,BasisAll,ResetAll,Capstone,Extras,BasisGates,Discharge,Demo,Complex,UnitaryNorm,DischargeAll,HypsComplex}.lean`.
 
 Objects.  `Sim.execOps vecBackend` is the executable model of `Circuit::do_execute_with` on the vector
 backend (`Q1t/Model/Sim.lean`; tied to the code by correspondence (A) of `tools/check.py C02`): a term of the
@@ -29,9 +31,10 @@ drawn only if its weight is).
 (`mat`, `vec`: these follow from C04 + C05, `Q1t/Proofs/RouteSim.lean`), the embedded documented unitary
 preserves the squared norm (`iso`), `H`, `S`, `S†`, `X` on a qubit below `n` are valid instances (`basis`), and
 `H·H = 1`, `S·S† = 1` for the embedded documented matrices (`hh`, `ssdg`).  It is a hypothesis of
-`shot_refinement`; it is PROVED (`gateSemOK_basis_gates`) when `valid` = {`H`, `X`, `S`, `S†` on one qubit}, so
-`shot_refinement_basis_gates` has no gate hypothesis at all.  For other gates `iso` (norm preservation of the
-embedded documented unitary) is the part that C04/C05 do not yet provide.
+`shot_refinement`; it is PROVED COMPLETELY (`gateSemOK_all_terms`) for `valid` = `Route.Placed n` = every
+well-formed gate term (primitives, `C`, `Kron`, `Composite`, `Loop`) on a valid placement, from C04 + C05
+(`RouteSim`, `TermUnitary`, `EmbedUnitary`) and "a unitary preserves the squared norm" (`SimUnitaryNorm`), so
+**`shot_refinement_unconditional` has no gate hypothesis at all**.
 
 Other hypotheses: `NonzeroOK nonzero` (the norm test handed to the reference semantics accepts every vector of
 invertible weight; the exact test of a field does); `LocalWeights α` (a sum of two weights is invertible only
@@ -136,6 +139,34 @@ theorem shot_refinement_basis_gates (ha : LawfulAmp α P) (hs : LawfulSim α P n
         (φ, w) ∈ replay n nonzero ops outs [(ket0 n, 0)] ∧ Rel n col φ ∧ ∃ u : α, normSqSum φ * u = 1 :=
   shot_refinement ha hs (gateSemOK_basis ha hs n) hnzb ops hv hok hloc hrun hsupp
 
+open Q1t.Proofs.Route in
+/-- **`GateSemOK` is proved for ALL well-formed terms on valid placements** (`Route.Placed n g bits`: `Spec.WF g`,
+`nrBits g = bits.length`, distinct qubits below `n`, and `n < 64` if `g` contains a composite), every register
+size, every lawful amplitude ring, all parameter values -/
+theorem gateSemOK_all_terms (ha : LawfulAmp α P) (hs : LawfulSim α P nz) (n : Nat) :
+    GateSemOK α n (Placed (P := P) n) :=
+  gateSemOK_placed ha hs n
+
+open Q1t.Proofs.Route in
+/-- **shot_refinement_unconditional** — `shot_refinement` with NO gate hypothesis: all `n`, `N`, all circuits
+over all operation kinds whose (plain or conditional) gates are well-formed terms on valid placements and whose
+`measure_all`/`peek_all` targets are distinct, all draws in the support, any lawful amplitude ring. -/
+theorem shot_refinement_unconditional (ha : LawfulAmp α P) (hs : LawfulSim α P nz)
+    {nonzero : List α → Bool} (hnzb : NonzeroOK nonzero) {n N : Nat} (ops : List (COp P))
+    (hv : OpsValid (Placed (P := P) n) ops) (hok : ∀ op ∈ ops, OpOK op)
+    (hloc : COp.resetAll ∈ ops → LocalWeights α)
+    {ds ds' : List Draw} {s' : VecState α} {c' : List Nat}
+    (hrun : runOracle (execOps (vecBackend (α := α) (P := P)) (VecState.new n N) (List.replicate N 0) ops) ds =
+      some (.ok (s', c'), ds'))
+    (hsupp : Supported (suppBin nz) (suppCat nz)
+      (execOps (vecBackend (α := α) (P := P)) (VecState.new n N) (List.replicate N 0) ops) ds) :
+    WFState n N s' c' ∧
+    ∃ regs, RunsTrace (vecBackend (α := α) (P := P)) (suppBin nz) (suppCat nz) (VecState.new n N)
+        (List.replicate N 0) ops ds regs s' c' ds' ∧
+      ∀ i, i < N → ∃ outs col w φ, ShotRecord regs i outs ∧ (shotStates s')[i]? = some col ∧ c'[i]? = some w ∧
+        (φ, w) ∈ replay n nonzero ops outs [(ket0 n, 0)] ∧ Rel n col φ ∧ ∃ u : α, normSqSum φ * u = 1 :=
+  shot_refinement ha hs (gateSemOK_placed ha hs n) hnzb ops hv hok hloc hrun hsupp
+
 /-- every field has `LocalWeights` -/
 theorem localWeights_of_field (K : Type) [Field K] : LocalWeights K := by
   intro a b ⟨u, hu⟩
@@ -233,20 +264,22 @@ end
 
 /-! ## the intended model: complex amplitudes -/
 
-open Q1t.SimComplex Q1t.AmpComplex in
-/-- ℂ with the real cosine/sine, `|a|² = a·ā`, `rsqrt w = 1/√w`, `min1 w = min(w, 1)` and `nz` = "is a positive
-real" satisfies every algebraic hypothesis, and `GateSemOK` for the basis gates on every register -/
+open Q1t.SimComplex Q1t.AmpComplex Q1t.Sim.SimGFComplex Q1t.Proofs.Route in
+/-- ℂ with the real cosine/sine, `|a|² = a·ā`, `rsqrt w = 1/√(re w)`, `min1 w = min(re w, 1) + i·im w` and `nz` =
+"is a positive real" (the instance of `Q1t/Proofs/SimGFComplex.lean`, shared with C01) satisfies every algebraic
+hypothesis, and `GateSemOK` for all well-formed terms on valid placements of every register -/
 theorem complex_is_model : LawfulAmp ℂ ℝ ∧ LawfulSim ℂ ℝ nzC ∧ LocalWeights ℂ ∧ NonzeroOK nonzeroC ∧
-    ∀ n, GateSemOK ℂ n (basisValid (P := ℝ) n) :=
-  ⟨Q1t.AmpComplex.lawful, Q1t.SimComplex.lawfulSim, Q1t.SimComplex.localWeights, nonzeroC_ok,
-    fun n => gateSemOK_basis Q1t.AmpComplex.lawful Q1t.SimComplex.lawfulSim n⟩
+    ∀ n, GateSemOK ℂ n (Placed (P := ℝ) n) :=
+  ⟨Q1t.AmpComplex.lawful, lawfulSim, Q1t.SimComplex.localWeights, nonzeroC_ok,
+    fun n => gateSemOK_placed Q1t.AmpComplex.lawful lawfulSim n⟩
 
-open Q1t.SimComplex Q1t.AmpComplex in
-/-- **shot_refinement over ℂ**, no algebraic and no gate hypothesis: circuits over `H`, `X`, `S`, `S†` (plain or
-conditional) and all measurement / peek / reset operations (all bases, `reset_all` included), all `n`, `N`, all
-draws in the support ("an outcome is drawn only if its weight is a positive real") -/
+open Q1t.SimComplex Q1t.AmpComplex Q1t.Sim.SimGFComplex Q1t.Proofs.Route in
+/-- **shot_refinement over ℂ, unconditional**: no algebraic and no gate hypothesis — all `n`, `N`, all circuits
+over all operation kinds (all bases, `reset_all` included) whose gates are well-formed terms (any nesting of `C`,
+`Kron`, `Composite`, `Loop`; all real parameters) on valid placements, distinct `measure_all`/`peek_all` targets,
+all draws in the support ("an outcome is drawn only if its weight is a positive real") -/
 theorem shot_refinement_complex {n N : Nat} (ops : List (COp ℝ))
-    (hv : OpsValid (basisValid (P := ℝ) n) ops) (hok : ∀ op ∈ ops, OpOK op)
+    (hv : OpsValid (Placed (P := ℝ) n) ops) (hok : ∀ op ∈ ops, OpOK op)
     {ds ds' : List Draw} {s' : VecState ℂ} {c' : List Nat}
     (hrun : runOracle (execOps (vecBackend (α := ℂ) (P := ℝ)) (VecState.new n N) (List.replicate N 0) ops) ds =
       some (.ok (s', c'), ds'))
@@ -257,11 +290,28 @@ theorem shot_refinement_complex {n N : Nat} (ops : List (COp ℝ))
         (List.replicate N 0) ops ds regs s' c' ds' ∧
       ∀ i, i < N → ∃ outs col w φ, ShotRecord regs i outs ∧ (shotStates s')[i]? = some col ∧ c'[i]? = some w ∧
         (φ, w) ∈ replay n nonzeroC ops outs [(ket0 n, 0)] ∧ Rel n col φ ∧ normSqSum φ ≠ 0 := by
-  obtain ⟨h1, regs, h2, h3⟩ := shot_refinement_basis_gates Q1t.AmpComplex.lawful Q1t.SimComplex.lawfulSim
+  obtain ⟨h1, regs, h2, h3⟩ := shot_refinement_unconditional Q1t.AmpComplex.lawful lawfulSim
     nonzeroC_ok ops hv hok (fun _ => Q1t.SimComplex.localWeights) hrun hsupp
   refine ⟨h1, regs, h2, fun i hi => ?_⟩
   obtain ⟨outs, col, w, φ, a, b, c, d, e, u, hu⟩ := h3 i hi
   exact ⟨outs, col, w, φ, a, b, c, d, e, fun h0 => by rw [h0, zero_mul] at hu; exact zero_ne_one hu⟩
+
+/-! ## for C01: the hypothesis bundle `SimGF.Hyps` discharged (re-exported here so that it is axiom-audited) -/
+
+/-- `SimGF.Hyps` (C01) is really inhabited: complex amplitudes, every `n`, all well-formed terms on valid
+placements -/
+theorem hyps_complex (n : Nat) :
+    Q1t.Sim.SimGF.Hyps ℂ ℝ Q1t.Sim.SimGFComplex.nzC n (Q1t.Proofs.Route.Placed (P := ℝ) n) :=
+  Q1t.Sim.hyps_complex n
+
+/-- C01's multinomial law on the fragment F with no hypothesis on amplitudes or gates -/
+theorem histogram_gf_unconditional {R : Type} [CommRing R] {n N : Nat} (ord : List (Nat × Nat) → List (Nat × Nat))
+    (hord : ∀ l, (ord l).Perm l) (toR : ℂ →+* R) (x : Nat → R) (ops : List (COp ℝ))
+    (hF : ∀ op ∈ ops, Q1t.Sim.SimGF.InF n (Q1t.Proofs.Route.Placed (P := ℝ) n) op) (hN : 0 < N) :
+    Q1t.Sim.Prog.expectOrd ord toR
+      (execOps (vecBackend (α := ℂ) (P := ℝ)) (VecState.new n N) (List.replicate N 0) ops)
+      (Q1t.Sim.SimGF.shotProd x) = Q1t.Sim.SimGF.gfShot n toR x ops (Q1t.Sim.SimGF.ket0 n, 0) ^ N :=
+  Q1t.Sim.histogram_gf_unconditional ord hord toR x ops hF hN
 
 /-! ## non-vacuity -/
 
@@ -305,5 +355,18 @@ theorem stab_peek_all_bell_impossible_value :
       Supported (suppBin nzQ8) (suppCat nzQ8) bellProg bellDraws) ∧
     Spec.replay (P := Empty) 2 nonzeroQ8 bellPeekAll [0, 0, 2] [(ket0 2, 0)] = [] :=
   d5_witness
+
+/-! ## negative witness: D14 (vector backend, repeated `measure_all` target) -/
+
+/-- **D14**: outside `OpOK` the statement FAILS.  2 qubits in `|10⟩` (`x(0)`), `measure_all` with both qubits
+sent to classical bit 0: the model (only possible draw: basis state `|10⟩`) stores the word 1 = `1 | 0` — the
+outcomes of the two qubits are ORed; the reference semantics, which reads bit 0 as the outcome of qubit 0 AND of
+qubit 1, has no candidate for the record `0, 1`. -/
+theorem measure_all_repeated_target_ors :
+    (∃ s', runOracle d14Prog d14Draws = some (.ok (s', [1]), []) ∧
+      Supported (suppBin nzQ8) (suppCat nzQ8) d14Prog d14Draws) ∧
+    Spec.replay (P := Empty) 2 nonzeroQ8 d14Ops [0, 1] [(ket0 2, 0)] = [] ∧
+    ¬ OpOK (COp.measureAll (P := Empty) [0, 0] .Z) :=
+  d14_witness
 
 end Q1t.Props.C02
